@@ -27,6 +27,8 @@ def gen_config(rnd, S, opts=None):
                "futures_settlement_price_type": rnd.choice(["close", "settlement"])}
     if opts.get("c06_plans"):
         S["_c06_plans"] = True           # follow-up orders sent from a TRADE handler; a resting auction order plus bar orders on one instrument
+    if opts.get("c15_plans"):
+        S["_c15_plans"] = True           # sizing calls right after a resting purchase has reserved cash / while a partly filled sale is still resting
     if opts.get("pf_roundtrip"):
         S["_pf_roundtrip"] = True        # after the close of every day the portfolio's persisted state is read back into the running portfolio (a restore in place)
     if opts.get("pos_roundtrip"):
@@ -468,6 +470,30 @@ def run_trading(rnd, S, cfgk, intensity=1.0, script=None, analyser=False, ids=No
                 r2 = api.order_shares(oid, q2, price_or_style=LimitOrder(round(price * 0.985, 2)))
                 return [r1, r2]
             out.append(f3)
+            if S.get("_c15_plans"):
+                def f3c(call, before):
+                    # ... then a share-based purchase that costs more than the AVAILABLE cash but less than available + reserved cash
+                    acc_ = context.portfolio.accounts["STOCK"]
+                    oid = srnd.choice(stocks)
+                    price = env.get_last_price(oid)
+                    if not (price == price and price > 0 and acc_.frozen_cash > 0 and acc_.cash > 5 * price * 100):
+                        raise StopIteration
+                    q = int((acc_.cash + 0.5 * acc_.frozen_cash) / price) // 100 * 100
+                    call.update(api="order_shares", args=(oid, q, None))
+                    return api.order_shares(oid, q)
+                out.append(f3c)
+        # a value-based sale while a partly filled limit sale of the same stock is still resting
+        if S.get("_c15_plans") and "STOCK" in context.portfolio.accounts:
+            for o_ in env.broker.get_open_orders():
+                if o_.order_book_id in stocks and o_.side == SIDE.SELL and o_.filled_quantity > 0 and o_.unfilled_quantity > 0:
+                    def f13(call, before, oid=o_.order_book_id, kind=srnd.choice(["value", "target"])):
+                        if kind == "value":
+                            call.update(api="order_value", args=(oid, -10000000.0, None))
+                            return api.order_value(oid, -10000000.0)
+                        call.update(api="order_target_percent", args=(oid, 0, None))
+                        return api.order_target_percent(oid, 0)
+                    out.append(f13)
+                    break
         # a purchase exactly as large as an odd-lot holding (the lot-rounding exemption is for selling out, not for buying)
         if "STOCK" in context.portfolio.accounts:
             for oid in stocks:
@@ -557,7 +583,10 @@ def run_trading(rnd, S, cfgk, intensity=1.0, script=None, analyser=False, ids=No
                 for oid_ in stocks:
                     p_ = context.portfolio.accounts["STOCK"].get_position(oid_, POSITION_DIRECTION.LONG) if "STOCK" in context.portfolio.accounts else None
                     if p_ is not None:
-                        pos_info[oid_] = {"qty": p_.quantity, "closable": p_.closable, "market_value": float(p_.market_value), "price": float(env.get_last_price(oid_))}
+                        pos_info[oid_] = {"qty": p_.quantity, "closable": p_.closable, "market_value": float(p_.market_value), "price": float(env.get_last_price(oid_)),
+                                           # what can be closed, from first principles: the holding minus the unfilled part of every resting sale minus today's purchases under T+1
+                                           "closable_indep": p_.quantity - sum(o_.unfilled_quantity for o_ in env.broker.get_open_orders() if o_.order_book_id == oid_ and o_.side == SIDE.SELL)
+                                           - (getattr(p_, "_non_closable", 0) if cfgk["accounts_mod"].get("stock_t1", True) else 0)}
                 for oid_ in futs:
                     if "FUTURE" in context.portfolio.accounts:
                         a_ = context.portfolio.accounts["FUTURE"]
